@@ -5,8 +5,8 @@ import os
 from .. import core, patterns as P
 
 PREFIXES = ["", "/g", "/h", "/g/g", "/g/h", "/h/g", "/h/h"]
-BASES = ["/s", "/d/{id}", "/o[/{x}]"]
-REQ_PATHS = ["/s", "/g/s", "/g/h/s", "/h/s", "/d/7", "/g/d/7", "/h/d/x", "/o", "/o/1", "/g/o", "/g/o/1", "/h/h/o/z", "/nope", "/g/nope", "/g/h/d/9"]
+BASES = ["/s", "/d/{id}", "/o[/{x}]", "/regres"]     # "/regres": the index route of Resource(base, &Regres{})
+REQ_PATHS = ["/s", "/g/s", "/g/h/s", "/h/s", "/d/7", "/g/d/7", "/h/d/x", "/o", "/o/1", "/g/o", "/g/o/1", "/h/h/o/z", "/nope", "/g/nope", "/g/h/d/9", "/regres", "/g/regres", "/h/g/regres"]
 DEV = dict(D_IrregularOverwrite=False, D_QuotedStart=False, D_VarlessOptionalIrregular=False, D_EmptyCheckBeforeTrim=False,
            D_InterceptRaw=False, D_FallbackBeforeHead=False, D_AllowProbeHeadFallback=False,
            D_CacheKeyFirstSegment=False, D_CacheKeyNoMethod=False, D_CacheSkipsStable=False,
